@@ -479,7 +479,7 @@ pub fn check(cfg: &CheckCfg) -> i32 {
                     continue;
                 }
                 let r = minimize_isolated(&r, true);
-                let v = Violation { property: "C04".into(), class: class.clone(), detail: json!({"stalled_at_op": at_op, "limit_s": 60}), op_index: at_op };
+                let v = Violation { property: "C04".into(), class: class.clone(), detail: json!({"stalled_at_op": at_op, "limit_s": 30}), op_index: at_op };
                 agg.violations.entry(("C04".into(), class)).or_insert((idx, v.clone()));
                 agg.stats.probe("confirmed_hang");
                 agg.results += 1;
